@@ -18,8 +18,8 @@ import (
 // signed transactions of tx_valid.json (a digest is right iff the published signature verifies).
 
 var (
-	curveP, _ = new(big.Int).SetString("fffffffffffffffffffffffffffffffffffffffffffffffffffffffefffffc2f", 16)
-	curveN, _ = new(big.Int).SetString("fffffffffffffffffffffffffffffffebaaedce6af48a03bbfd25e8cd0364141", 16)
+	curveP, _  = new(big.Int).SetString("fffffffffffffffffffffffffffffffffffffffffffffffffffffffefffffc2f", 16)
+	curveN, _  = new(big.Int).SetString("fffffffffffffffffffffffffffffffebaaedce6af48a03bbfd25e8cd0364141", 16)
 	curveGx, _ = new(big.Int).SetString("79be667ef9dcbbac55a06295ce870b07029bfcdb2dce28d959f2815b16f81798", 16)
 	curveGy, _ = new(big.Int).SetString("483ada7726a3c4655da4fbfc0e1108a8fd17b448a68554199c47d08ffb10d4b8", 16)
 )
@@ -466,15 +466,15 @@ func flipped(h [32]byte) (r [32]byte) {
 func calibScriptCode() error {
 	type c struct{ in, want string }
 	cases := []c{
-		{"51ab52", "02" + "5152"},             // separator removed, length reduced
-		{"abab", "00"},                          // only separators
-		{"51ab", "01" + "51"},                   // trailing separator
-		{"02abab51", "04" + "02abab51"},         // separator bytes inside push data stay
-		{"514c", "02" + "514c"},                 // PUSHDATA1 without length byte: iterator stops at end
-		{"5105aabb", "04" + "5105"},             // direct push short of data: iterator left after the opcode
-		{"514c05aabb", "05" + "514c05"},         // PUSHDATA1 short of data: left after the length byte
-		{"514d05", "03" + "514d"},               // PUSHDATA2 with half a length field: left after the opcode
-		{"ab5105aaab", "04" + "5105"},           // separator before the bad opcode counted, after it not
+		{"51ab52", "02" + "5152"},       // separator removed, length reduced
+		{"abab", "00"},                  // only separators
+		{"51ab", "01" + "51"},           // trailing separator
+		{"02abab51", "04" + "02abab51"}, // separator bytes inside push data stay
+		{"514c", "02" + "514c"},         // PUSHDATA1 without length byte: iterator stops at end
+		{"5105aabb", "04" + "5105"},     // direct push short of data: iterator left after the opcode
+		{"514c05aabb", "05" + "514c05"}, // PUSHDATA1 short of data: left after the length byte
+		{"514d05", "03" + "514d"},       // PUSHDATA2 with half a length field: left after the opcode
+		{"ab5105aaab", "04" + "5105"},   // separator before the bad opcode counted, after it not
 		{"", "00"},
 	}
 	for _, k := range cases {
@@ -500,13 +500,13 @@ func calibScriptCode() error {
 		{"000051005151", "0051", "0051", 2},
 		{"515253", "52", "5153", 1},
 		{"535153535453", "53", "5154", 4},
-		{"02feed5169", "feed51", "02feed5169", 0},   // not at a boundary
+		{"02feed5169", "feed51", "02feed5169", 0}, // not at a boundary
 		{"02feed5169", "02feed51", "69", 1},
 		{"516902feed5169", "feed51", "516902feed5169", 0},
 		{"516902feed5169", "02feed51", "516969", 1},
 		{"0003feed", "03feed", "00", 1}, // found, then nothing left
 		{"0003feed", "00", "03feed", 1},
-		{"5105aabb", "51", "05aabb", 1},      // unparsable tail kept when something was removed
+		{"5105aabb", "51", "05aabb", 1}, // unparsable tail kept when something was removed
 		{"5105aabb", "52", "5105aabb", 0},
 		{"51", "", "51", 0},
 	}
